@@ -72,8 +72,61 @@ fn crash_replay(spec_path: &str) -> i32 {
     if verdict == "old" || verdict == "new" { 0 } else { 1 }
 }
 
+/// alloc-replay <stbc-string-table|retain-array>: feeds the REAL decoder a tiny input whose count field is
+/// 0xFFFFFFFF. Run by the driver in a child process under `ulimit -v`: an allocation failure aborts the process
+/// (exit by SIGABRT) = the unbounded allocation reproduces; a clean Err(..) exit 0 = it does not.
+fn alloc_replay(which: &str) -> i32 {
+    match which {
+        "stbc-string-table" => {
+            // header (24 bytes) + one section entry (12 bytes) + 4-byte payload: count = 0xFFFFFFFF
+            let mut b: Vec<u8> = Vec::new();
+            b.extend_from_slice(b"STBC");
+            b.extend_from_slice(&1u16.to_le_bytes()); // major
+            b.extend_from_slice(&1u16.to_le_bytes()); // minor
+            b.extend_from_slice(&0u32.to_le_bytes()); // flags: no CRC
+            b.extend_from_slice(&24u16.to_le_bytes()); // header size
+            b.extend_from_slice(&1u16.to_le_bytes()); // section count
+            b.extend_from_slice(&24u32.to_le_bytes()); // section table offset
+            b.extend_from_slice(&0u32.to_le_bytes()); // checksum (unused)
+            b.extend_from_slice(&1u16.to_le_bytes()); // section id: string table
+            b.extend_from_slice(&0u16.to_le_bytes()); // flags
+            b.extend_from_slice(&36u32.to_le_bytes()); // offset
+            b.extend_from_slice(&4u32.to_le_bytes()); // length
+            b.extend_from_slice(&0xFFFF_FFFFu32.to_le_bytes()); // count
+            let r = trust_runtime::bytecode::BytecodeModule::decode(&b);
+            println!("decode returned {:?}", r.as_ref().map(|_| "Ok").map_err(|e| e.to_string()));
+            0
+        }
+        "retain-array" => {
+            use trust_runtime::retain::{FileRetainStore, RetainStore};
+            let dir = std::env::temp_dir().join(format!("verif_alloc_{}", std::process::id()));
+            std::fs::create_dir_all(&dir).unwrap();
+            let p = dir.join("retain.bin");
+            // STRN v1, one entry named "a", value = ARRAY with len = 0, dims = 0xFFFFFFFF
+            let mut b: Vec<u8> = Vec::new();
+            b.extend_from_slice(b"STRN");
+            b.extend_from_slice(&1u16.to_le_bytes());
+            b.extend_from_slice(&1u32.to_le_bytes());
+            b.extend_from_slice(&1u32.to_le_bytes());
+            b.push(b'a');
+            b.push(28);
+            b.extend_from_slice(&0u32.to_le_bytes());
+            b.extend_from_slice(&0xFFFF_FFFFu32.to_le_bytes());
+            std::fs::write(&p, &b).unwrap();
+            let r = FileRetainStore::new(&p).load();
+            println!("load returned {:?}", r.as_ref().map(|_| "Ok").map_err(|e| e.to_string()));
+            let _ = std::fs::remove_dir_all(&dir);
+            0
+        }
+        _ => 2,
+    }
+}
+
 fn main() {
     let args: Vec<String> = std::env::args().collect();
+    if args.len() >= 3 && args[1] == "alloc-replay" {
+        std::process::exit(alloc_replay(&args[2]));
+    }
     if args.len() >= 3 && args[1] == "crash-replay" {
         std::process::exit(crash_replay(&args[2]));
     }
